@@ -65,8 +65,9 @@ def inventory(repo):
                 if cur.startswith('verif_'):
                     continue
                 kind = m.group(1).lstrip('.').replace(' ', '')
-                if kind in ('writeln!', 'write!') and 'unit_file' not in rel and 'unit.rs' not in rel and 'value.rs' not in rel:
-                    continue  # log / usage output, not a unit file
+                if kind in ('writeln!', 'write!') and not re.match(r'\s*\(\s*writer\b', src[m.end() - 1:m.end() + 20]) \
+                        and 'unit.rs' not in rel and 'value.rs' not in rel:
+                    continue  # log / usage output, not a unit file (the file writers are called `writer`)
                 if re.match(r'\s*fn\s', src[max(0, m.start() - 12):m.start() + 1]) or src[max(0, m.start() - 3):m.start()].endswith('fn '):
                     continue  # the definition itself
                 sites.append(dict(file=rel, fn=cur, kind=kind, args=args_after(src, m.end() - 1)[:200]))
